@@ -89,8 +89,8 @@ def w_small(job):
             third = pd.Series([None if i % 2 else 'z' for i in range(n)], dtype=object)
             cols = {'c': ref, 'k': list(range(n)), 'z': [None if i % 2 else 'z' for i in range(n)]}
             menus = [(['c'], None), (['c', 'k'], None), (['k', 'c', 'z'], None), (['k', 'c', 'z'], ['c']),
-                     (['k', 'c', 'z'], ['z', 'c']), (['c', 'k'], ['k', 'c'])]
-            for (order, attrs) in menus[:job.get('menus', 6)]:
+                     (['k', 'c', 'z'], ['z', 'c']), (['c', 'k'], ['k', 'c']), (['c', 'k'], [])]
+            for (order, attrs) in menus[:job.get('menus', 7)]:
                 df = pd.DataFrame({name: {'c': ser, 'k': other, 'z': third}[name] for name in order})
                 if job.get('seed', 0) % 3 == 1 and n:
                     df.index = ['r%d' % i for i in range(n)]
@@ -160,7 +160,7 @@ def layers(tier):
             jobs.append({'n': n, 'lo': lo, 'hi': min(lo + step, tot),
                          'kinds': ['object', 'float', 'int', 'str', 'Int64', 'string', 'boolean'] if (n <= 4 or not quick)
                          else (['object', 'float', 'Int64'] if n == 5 else ['object', 'float']),
-                         'menus': 6 if (n <= 4 or not quick) else 3, 'seed': sd})
+                         'menus': 7 if (n <= 4 or not quick) else 3, 'seed': sd})
     Ls = [Layer('small-columns', 'checks.c17:w_small', jobs,
                 'all 5460 columns of length 1..6 over {a,b,c,missing} as object / str / float / int / nullable Int64 / string / boolean columns in '
                 '1-3 column tables x profile_attrs in {None, subsets, permuted}; exact counts, percentages, '
